@@ -15,18 +15,10 @@ ENGINES = [
 NOTES = ("Technique family: machine-checked proof in Lean 4. Every check = kernel-checked theorems about a model + a "
          "correspondence/regenerated tie to /repo's working tree; see DESIGN.md.")
 
-CHECKS = {
-    "C10": {
-        "category": "proof",
-        "technique": "Lean 4 theorems (WF invariant + bond-set specification, induction over edit histories) + model/implementation correspondence on edit histories",
-        "text": "Kernel-checked proof that every edit of the topology API preserves well-formedness and changes the bond set exactly per "
-                "specification, lifted by induction to every finite history from the empty machine (no bound on length, ports or processors). "
-                "The model is hand-written; it is tied to bondmachine.go on every run by replaying generated and exhaustive short edit "
-                "histories on the real Bondmachine and on the model and comparing every dumped field after every edit.",
-        "note": "Trusted: Lean kernel (axioms propext/Classical.choice/Quot.sound only), the hand-written model BMV.Topology, the Go harness "
-                "and oracle glue, injectivity of Bond.String. Not covered: negative ids, shared-object links.",
-    },
-}
+import json, os, glob
+CHECKS = {}
+for _f in sorted(glob.glob(os.path.join(os.path.dirname(os.path.abspath(__file__)), "manifest.d", "C*.json"))):
+    CHECKS[os.path.basename(_f)[:-5]] = json.load(open(_f))
 NOT_APPLICABLE = {}
 for e in ENGINES:
     e["serves_properties"] = sorted(CHECKS.keys())
